@@ -14,14 +14,17 @@ def parseNatList (s : String) : List Nat :=
   if s == "-" then [] else (s.splitOn ",").filterMap (·.toNat?)
 
 def showOut : Out → String
-  | .start p i k st => s!"start:{p}>{i}@{k}/{st.code}"
+  | .start p i k st sg => s!"start:{p}>{i}@{k}/{st.code}{if sg then "s" else ""}"
   | .force p s nr k => s!"force:{p}:{s.code}:{if nr then 1 else 0}@{k}"
   | .stop p i => s!"stop:{p}>{i}"
 
 def obs (w : W) : String :=
   let prog := !w.planned.isEmpty || !w.current.isEmpty
   let sprog := !w.splanned.isEmpty || !w.scurrent.isEmpty
-  s!"out=[{String.intercalate "," (w.out.map showOut)}] starting={prog} stopping={sprog}"
+  -- a Python exception aborted the operation: what was emitted before it, and its class (the case ends there)
+  match w.exc with
+  | some cls => s!"out=[{String.intercalate "," (w.out.map showOut)}] exc={cls}"
+  | none => s!"out=[{String.intercalate "," (w.out.map showOut)}] starting={prog} stopping={sprog}"
 
 def FUEL := 200
 
@@ -35,6 +38,7 @@ def eventOp (i p : Nat) (s : PState) (ex : Bool) (et lt : Nat) (dis : Option Boo
     let x ← proc p
     if (getInfo x.infos i).isSome then
       setProc p (resOr (updateInfo x i s ex et dis lt) x)
+      noteStopMark p i s
       starterOnEvent FUEL p i
       stopperOnEvent FUEL p i
 
@@ -44,6 +48,7 @@ def action (rest : List String) : Option (M String) :=
       -- add_info (handshake snapshot)
       let x ← proc p.toNat!
       setProc p.toNat! (resOr (addInfo x i.toNat! (pstate st) (s2b ex) et.toNat! (s2b dis) lt.toNat!) x)
+      clearStopMark p.toNat! i.toNat!
       return "")
   | ["event", i, p, st, ex, et, lt] => some (do
       eventOp i.toNat! p.toNat! (pstate st) (s2b ex) et.toNat! lt.toNat! none; return "")
@@ -53,6 +58,11 @@ def action (rest : List String) : Option (M String) :=
   | ["tick", i] => some (do modify fun w => { w with counter := w.counter.set i.toNat! (w.counter.getD i.toNat! 0 + 1) }; return "")
   | ["check"] => some (do starterCheck FUEL; stopperCheck FUEL; return "")
   | ["stopapp", a] => some (do stopApplication FUEL a.toNat!; return "")
+  | ["stopapps"] => some (do stopApplications FUEL; return "")
+  | ["startapps"] => some (do
+      let stored ← startApplications FUEL
+      return s!" auto=[{",".intercalate (stored.map (fun (k, a) => s!"{k}:{a}"))}]")
+  | ["startproc", p, strat] => some (do startProcess FUEL p.toNat! (Strategy.ofCode strat.toNat!); return "")
   | ["restartapp", a, strat] => some (do restartApplication FUEL a.toNat! (Strategy.ofCode strat.toNat!); return "")
   | ["lose", i] => some (do
       let f ← loseInstance FUEL i.toNat!
@@ -78,8 +88,10 @@ def parseReqs (obs : String) : List Req :=
         | ["start", pi] => match pi.splitOn ">" with
           | [p, rest] => match rest.splitOn "@" with
             | [i, ks] => match ks.splitOn "/" with
-              | [k, st] => match p.toNat?, i.toNat?, k.toNat?, st.toNat? with
-                | some p, some i, some k, some st => some (Req.start p i k (Strategy.ofCode st))
+              | [k, st] =>
+                let sg := st.endsWith "s"
+                match p.toNat?, i.toNat?, k.toNat?, ((st.splitOn "s").headD "").toNat? with
+                | some p, some i, some k, some st => some (Req.start p i k (Strategy.ofCode st) sg)
                 | _, _, _, _ => none
               | _ => none
             | _ => none
@@ -92,6 +104,17 @@ def parseReqs (obs : String) : List Req :=
             | some p, some st, some k => some (Req.force p st (nr == "1") k)
             | _, _, _ => none
           | _ => none
+        | _ => none)
+    | [] => []
+  | _ => []
+
+/-- the application starts stored by `start_applications`, as the implementation reported them: `auto=[rank:application,...]` -/
+def parseAuto (obs : String) : List (Nat × Nat) :=
+  match obs.splitOn "auto=[" with
+  | _ :: rest :: _ =>
+    match rest.splitOn "]" with
+    | inner :: _ => (inner.splitOn ",").filterMap (fun x => match x.splitOn ":" with
+        | [k, a] => match k.toNat?, a.toNat? with | some k, some a => some (k, a) | _, _ => none
         | _ => none)
     | [] => []
   | _ => []
@@ -109,11 +132,20 @@ def activeOf (w : W) (a : Nat) : List Nat :=
 def beginStop (w0 : W) (j : Judge) (a : Nat) : Judge :=
   let busy := j.stops.any (fun r => (pc w0 r.1).app == a) || !w0.splanned.isEmpty || !w0.scurrent.isEmpty
   { j with stopRuns := j.stopRuns ++ [a], givenUp := j.givenUp.filter (fun q => (pc w0 q).app != a), stopSet := j.stopSet ++ activeOf w0 a,
-           overlap := if busy && j.stopRuns.contains a then j.overlap ++ [a] else j.overlap }
+           wasStopping := j.wasStopping ++ (activeOf w0 a).filter (fun q => (pr w0 q).state == .stopping),
+           -- a stop the monitor was not told about (the STOP starting failure strategy) may still be going on: its requests are outstanding
+           overlap := if (busy && j.stopRuns.contains a) || j.stops.any (fun r => (pc w0 r.1).app == a) then j.overlap ++ [a] else j.overlap }
 
 /-- fold the monitor over one operation: `w0` world before, `w1` world after, `reqs` what the implementation emitted -/
-def judgeOp (w0 w1 : W) (j : Judge) (rest : List String) (reqs : List Req) (starting : Bool) : Judge × List String :=
+def judgeOp (w0 w1 : W) (j : Judge) (rest : List String) (reqs : List Req) (starting stopping : Bool) (implObs : String) : Judge × List String :=
   let (j0, pre) : Judge × List String := match rest with
+    | ["startapps"] =>
+      -- the application starts stored by the automatic start are known from now on (what their processes report is recorded)
+      ((parseAuto implObs).foldl (fun (j : Judge) (ka : Nat × Nat) => setRun j { id := ka.1, app := ka.2, auto := true }) j, [])
+    | ["stopapps"] =>
+      let busy := !j.stops.isEmpty || !w0.splanned.isEmpty || !w0.scurrent.isEmpty
+      let apps := (List.range w0.acfg.length).filter (fun a => !(activeOf w0 a).isEmpty)
+      ({ (apps.foldl (fun (j : Judge) a => beginStop w0 j a) j) with stopAll := if busy then [] else apps }, [])
     | "event" :: i :: p :: st :: ex :: _ =>
       if acceptsEvents w0 i.toNat! && ((pr w0 p.toNat!).infos.get? i.toNat!).isSome
       then (onEvent w1 j p.toNat! i.toNat! (pstate st) (s2b ex), []) else (j, [])
@@ -122,10 +154,27 @@ def judgeOp (w0 w1 : W) (j : Judge) (rest : List String) (reqs : List Req) (star
       if hasRunningProcesses w0 a.toNat! then (beginStop w0 j a.toNat!, []) else (j, [])
     | ["stopapp", a] => (beginStop w0 j a.toNat!, [])
     | ["check"] => (j, onCheck w1 j reqs)
+    | ["startproc", p, _] =>
+      -- the first request counts (a process already planned is not considered again), and only for a stopped process
+      if j.added.any (fun x => x.1 == p.toNat!) || !(pr w0 p.toNat!).state.isStopped then (j, [])
+      else ({ j with added := j.added ++ [(p.toNat!, j.opIdx, { w1 with out := [] })] }, [])
     | _ => (j, [])
-  let (j1, v1) := reqs.foldl (fun (acc : Judge × List String) r => let (j', v) := onReq w1 acc.1 r; (j', acc.2 ++ v)) (j0, pre)
+  -- whatever made a process change state in this operation (a report, the loss of its instance, a handshake snapshot) is seen
+  -- by every application start of its application
+  let changed := (List.range w1.pcfg.length).filter (fun q => (pr w0 q).state != (pr w1 q).state)
+  let j0 := if changed.isEmpty then j0 else
+    { j0 with runs := j0.runs.map (fun run => { run with touched := run.touched ++ changed.filter (fun q => (pc w1 q).app == run.app) }) }
+  -- a process that became stopped-like by any means (the loss of its instance, a handshake snapshot) has been stopped: a later life
+  -- of it is not part of the stops requested before
+  let halted := changed.filter (fun q => (pr w1 q).state.isStopped)
+  let j0 := if halted.isEmpty then j0 else
+    let j0' := halted.foldl stopSettled j0
+    { j0' with stopSet := j0'.stopSet.filter (fun q => !halted.contains q), wasStopping := j0'.wasStopping.filter (fun q => !halted.contains q) }
+  let (j1, v1) := reqs.foldl (fun (acc : Judge × List String) r => let (j', v) := onReq w1 reqs acc.1 r; (j', acc.2 ++ v)) (j0, pre)
   let (j2, v2) := onIdle j1 starting
-  (j2, v1 ++ v2)
+  let (j3, v3) := onOpEnd w1 j2 stopping
+  -- the stop of all applications is over when the Stopper reports nothing in progress
+  ({ j3 with stopAll := (if stopping then j3.stopAll else []), opIdx := j3.opIdx + 1 }, v1 ++ v2 ++ v3)
 
 def stepLine (d : D) (line : String) : D × String :=
   let w := d.w
@@ -137,6 +186,10 @@ def stepLine (d : D) (line : String) : D × String :=
        instChecked := List.replicate ninst.toNat! false, counter := List.replicate ninst.toNat! 0, pcfg := [], acfg := [], procs := [] }, "ok")
   | ["app", sseq, strat, stseq] => lift
     ({ w with acfg := w.acfg ++ [{ startSeq := sseq.toNat!, strategy := Strategy.ofCode strat.toNat!, stopSeq := stseq.toNat! }] }, "ok")
+  | ["app", sseq, strat, stseq, dist, idents] => lift
+    ({ w with acfg := w.acfg ++ [{ startSeq := sseq.toNat!, strategy := Strategy.ofCode strat.toNat!, stopSeq := stseq.toNat!,
+                                   distribution := Dist.ofCode dist.toNat!,
+                                   idents := if idents == "*" then none else some (parseNatList idents) }] }, "ok")
   | ["proc", app, sseq, req, we, load, sf, idents, startsecs, stseq, stopwait] =>
     let c : PCfg := { app := app.toNat!, startSeq := sseq.toNat!, required := s2b req, waitExit := s2b we, load := load.toNat!,
                       sfail := if sf == "ABORT" then .abort else if sf == "STOP" then .stop else .cont,
@@ -148,7 +201,7 @@ def stepLine (d : D) (line : String) : D × String :=
     let w := { w with now := now.toNat!, out := [] }
     let outs := testStartApplication w a.toNat! (Strategy.ofCode strat.toNat!)
     let items := outs.filterMap (fun o => match o with
-      | .start p i _ _ => some (p, s!"{p}>{i}")
+      | .start p i _ _ _ => some (p, s!"{p}>{i}")
       | .force p _ true _ => some (p, s!"{p}!")
       | _ => none)
     let sorted := (sortNat (items.map (·.1))).eraseDups.flatMap (fun p => (items.filter (·.1 == p)).map (·.2))
@@ -161,10 +214,13 @@ def stepLine (d : D) (line : String) : D × String :=
       let (extra, w') := a.run w
       let implObs := parts.getD 1 ""
       let (j', verdicts0) := judgeOp w w' d.j rest (parseReqs implObs) ((implObs.splitOn "starting=true").length > 1)
+        ((implObs.splitOn "stopping=true").length > 1) implObs
       -- the implementation dropped a job object while its group was being processed (root cause of the untracked requests):
       -- what is emitted in such an operation is attributed to that root cause
-      let verdicts := if (implObs.splitOn "orphan=1").length > 1 then ["C10-start-request-untracked:job-dropped-while-processing"] else verdicts0
-      ({ w := w', j := j' }, obs w' ++ extra ++ " | " ++ (if verdicts.isEmpty then "J:ok" else "J:" ++ ";".intercalate verdicts))
+      let verdicts := if (implObs.splitOn "orphan=1").length > 1 then ["C10-start-request-untracked:job-dropped-while-processing"]
+        -- the implementation raised: the operation was cut short, the exception itself is what is reported (by the harness)
+        else if (implObs.splitOn "exc=").length > 1 then [] else verdicts0
+      ({ w := w', j := j' }, obs w' ++ (if w'.exc.isSome then "" else extra) ++ " | " ++ (if verdicts.isEmpty then "J:ok" else "J:" ++ ";".intercalate verdicts))
   | _ => (d, "bad-op")
 
 def main : IO Unit := runLoop (default : D) stepLine
